@@ -21,7 +21,7 @@ theorem abest_step (a : AStep) (s : AStore) (ha : a.isReport) (h : ABestIsMin s)
           rw [hb] at hbv; cases hbv
       simp only [Best.better, ↓reduceIte, hempty, List.nil_append]
       refine ⟨by simp, ?_, ?_⟩
-      · intro c' hc'; simp at hc'; subst hc'; exact ⟨c, rfl, Nat.le_refl _⟩
+      · intro c' hc'; simp at hc'; subst hc'; exact ⟨c', rfl, Nat.le_refl _⟩
       · intro b hbv; cases hbv; simp
     | val b =>
       simp only [Best.better]
@@ -41,12 +41,12 @@ theorem abest_step (a : AStep) (s : AStore) (ha : a.isReport) (h : ABestIsMin s)
         | true => simp only [↓reduceIte]; exact ⟨h0, h1, h2⟩
         | false =>
           simp only [Bool.false_eq_true, ↓reduceIte]
-          refine ⟨by rw [hb]; simp, ?_, ?_⟩
+          refine ⟨by simp, ?_, ?_⟩
           · intro c' hc'
             simp only [List.mem_append, List.mem_singleton] at hc'
             rcases hc' with hc' | hc'
             · simpa [hb] using h1 c' hc'
-            · subst hc'; exact ⟨b, by simp [hb], by omega⟩
+            · subst hc'; exact ⟨b, by simp, by omega⟩
           · intro b' hb'
             exact List.mem_append_left _ (h2 b' (by simpa [hb] using hb'))
 
